@@ -42,6 +42,7 @@ type LocalCell struct {
 }
 
 type PtrV struct {
+	Path   []int // pLocal: field path inside the cell's struct value
 	Kind   ptrKind
 	Ref    T
 	Idx    T
